@@ -18,7 +18,7 @@ T = {
          "Trusts go/ssa, SQLite 3.45 parser from go-sqlite3, the assumption that flag sets hold <= 16 flags, and that access paths are not reassigned between the query construction and its use.",
          "symbolic extraction of embedded SQL + polynomial arity comparison + SQLite-as-parser + typestate rules on SSA", "DESIGN.md 4/C08"),
 
- "C17": ("Static analysis: every transaction call that grows a limited quantity (the four mailbox-creating and two message-inserting db.Transaction methods; 10 sites) is dominated, in a function holding the same transaction (followed up to 3 caller frames through the parameter that carries it), by the matching limits.IMAP.Check* whose count argument is read from that transaction; for inserts in a loop the check is inside the loop or receives a len(batch) term; in the inserting function the check counts the mailbox inserted into and is told len(inserted list) (or 1); limit errors of every Check* call are returned from the transaction closure (rollback). Exemptions (table in evidence): the recovery-mailbox insert of a refused APPEND and newUser's one-time recovery mailbox. Arithmetic exactness of the count expression (off-by-one), remote side effects made before a refusal, and 'operations that fit are still accepted' are not decided.",
+ "C17": ("Static analysis: every transaction call that grows a limited quantity (the four mailbox-creating and two message-inserting db.Transaction methods; 10 sites) is dominated, in a function holding the same transaction (followed up to 3 caller frames through the parameter that carries it), by the matching limits.IMAP.Check* whose count argument is read from that transaction; for inserts in a loop the check is inside the loop or receives a len(batch) term; in the inserting function the check counts the mailbox inserted into and is told len(inserted list) (or 1); limit errors of every Check* call are returned from the transaction closure (rollback); no write transaction that can reach a limited insert is opened inside a loop (a refused multi-message operation cannot have committed an earlier part). Exemptions (table in evidence): the recovery-mailbox insert of a refused APPEND and newUser's one-time recovery mailbox. Arithmetic exactness of the count expression (off-by-one), remote side effects made before a refusal, and 'operations that fit are still accepted' are not decided.",
          "Trusts go/ssa dominators and the rule table of growth methods (a new db.Transaction method that inserts rows must be added to the table; R17.1's site count guards against the table matching nothing).",
          "dominator-based check-before-insert rule with transaction identity, loop multiplicity and argument agreement on SSA + error-propagation rule", "DESIGN.md 4/C17"),
 
